@@ -9,7 +9,7 @@ VERIF = os.path.dirname(os.path.abspath(__file__))
 BUILD = os.environ.get("VERIF_BUILD", os.path.join(VERIF, "build"))
 WORKLOADS = [("asan_cm1_dm0", "w2", "", 60), ("asan_cm1_dm0", "w1", "", 24), ("asan_cm1_dm0", "w1", "C15", 12), ("asan_cm1_dm0", "wc", "", 24), ("asan_cm1_dm0", "w3", "", 40),
              ("asan_cm1_dm0", "w14", "", 12), ("asan_cm1_dm0", "w16", "", 40), ("asan_cm1_dm0", "w19", "", 12), ("asan_cm1_dm0", "w2f", "", 40), ("asan_cm1_dm0", "w17", "", 200),
-             ("asan_cm1_dm0", "w10", "", 12), ("asan_cm1_dm0", "w5", "", 6), ("asan_cm0_dm0", "w1", "", 12), ("asan_cm2_dm0", "wc", "", 12), ("asan_cm1_dm1", "w1", "", 12)]
+             ("asan_cm1_dm0", "w10", "", 12), ("asan_cm1_dm0", "w15x", "", 40), ("asan_cm1_dm0", "w5", "", 6), ("asan_cm0_dm0", "w1", "", 12), ("asan_cm2_dm0", "wc", "", 12), ("asan_cm1_dm1", "w1", "", 12)]
 
 
 def run(variant, wl, focus, a, b):
